@@ -123,6 +123,7 @@ func NewInterp(p *Program, solverKind string, cfg *JobConfig, timeoutMs int) (*I
 		violSeen:  map[string]int{},
 		mergeBlacklist: map[*ssa.BasicBlock]int{},
 		qSites: map[string]int{},
+		inStub: map[string]bool{},
 	}
 	if is, err := NewSolver(solverKind, timeoutMs); err == nil {
 		is.IntMode = true
